@@ -15,7 +15,7 @@ import ast
 import copy
 
 from .project import AnalysisError, call_name, kwarg, norm
-from .specmodel import ANY, ClassV, DictV, EnumMember, ListT
+from .specmodel import ANY, ClassV, DictV, EnumMember, ListT, TupleV
 
 MAX_TRACES = 256
 
@@ -408,9 +408,34 @@ class Specialiser:
     def cond_key(self, test, s):
         return norm(test)
 
+    def region_member(self, region_expr, list_expr, s):
+        """is the region registered in the list?  Decided for regions created in this walker: such an object is in a list
+        exactly if a registration of it in that list lies on the trace (a list handed in by the caller cannot hold it)."""
+        a, b = self.ev(region_expr, s), self.ev(list_expr, s)
+        if a[0] != "region" or b[0] not in ("rlist", "param"):
+            return None
+        if not any(e.kind == "create" and e.data.get("region") == a[1] for e in s.trace):
+            return None
+        return any(e.kind == "register" and e.data.get("region") == a[1] and e.data.get("list") == b[1] for e in s.trace)
+
     def static_cond(self, test, s):
         if isinstance(test, ast.Constant):
             return bool(test.value)
+        if isinstance(test, ast.Call) and call_name(test) == "any" and len(test.args) == 1 and isinstance(test.args[0], ast.GeneratorExp):
+            g = test.args[0]
+            if len(g.generators) == 1 and not g.generators[0].ifs and isinstance(g.generators[0].target, ast.Name) and \
+                    isinstance(g.elt, ast.Compare) and len(g.elt.ops) == 1 and isinstance(g.elt.ops[0], (ast.Is, ast.Eq)):
+                c = g.generators[0].target.id
+                l, r = g.elt.left, g.elt.comparators[0]
+                other = r if isinstance(l, ast.Name) and l.id == c else l if isinstance(r, ast.Name) and r.id == c else None
+                if other is not None:
+                    m = self.region_member(other, g.generators[0].iter, s)
+                    if m is not None:
+                        return m
+        if isinstance(test, ast.Compare) and len(test.ops) == 1 and isinstance(test.ops[0], (ast.In, ast.NotIn)):
+            m = self.region_member(test.left, test.comparators[0], s)
+            if m is not None:
+                return m if isinstance(test.ops[0], ast.In) else not m
         if isinstance(test, ast.Compare) and len(test.ops) == 1:
             op = test.ops[0]
             a, b = self.ev(test.left, s), self.ev(test.comparators[0], s)
@@ -494,6 +519,8 @@ class Specialiser:
                     return ("ldict", v, f"{b[1].name}.{e.attr}")
                 if isinstance(v, EnumMember):
                     return ("member", v.cls.name, v.name, v.value)
+                if isinstance(v, TupleV) and all(isinstance(x, (str, int)) for x in v.items):
+                    return ("const", tuple(v.items))   # a table of names kept on the layout class
                 if e.attr == "__name__":
                     return ("const", b[1].name)
             if b[0] == "global":
